@@ -265,23 +265,28 @@ impl<'l, Data> LoopHandle<'l, Data> {
 
     /// Removes this source from the event loop.
     pub fn remove(&self, token: RegistrationToken) {
-        if let Ok(&mut SourceEntry {
-            token: entry_token,
-            ref mut source,
-        }) = self.inner.sources.borrow_mut().get_mut(token.inner)
-        {
-            if let Some(source) = source.take() {
-                trace!(source = entry_token.get_id(), "Removing source");
-                if let Err(e) = source.unregister(
-                    &mut self.inner.poll.borrow_mut(),
-                    &mut self
-                        .inner
-                        .sources_with_additional_lifecycle_events
-                        .borrow_mut(),
-                    token,
-                ) {
-                    warn!("Failed to unregister source from the polling system: {e:?}");
-                }
+        // Take the source out of its slot and release the borrow of the source list
+        // before doing anything else: dropping the source or its callback can run
+        // arbitrary code that needs to access the event loop again.
+        let source = self
+            .inner
+            .sources
+            .borrow_mut()
+            .get_mut(token.inner)
+            .ok()
+            .and_then(|entry| entry.source.take());
+
+        if let Some(source) = source {
+            trace!(source = token.inner.get_id(), "Removing source");
+            if let Err(e) = source.unregister(
+                &mut self.inner.poll.borrow_mut(),
+                &mut self
+                    .inner
+                    .sources_with_additional_lifecycle_events
+                    .borrow_mut(),
+                token,
+            ) {
+                warn!("Failed to unregister source from the polling system: {e:?}");
             }
         }
     }
